@@ -55,7 +55,7 @@ PROPS = {
     'C08': dict(level='proof', scenarios=[('depmatrix', 3000, 40000, ''), ('history', 2000, 20000, 'send')],
                 tags=[r'^tx:' + alt(DEPOSITS) + r':out$'],
                 ops=[('tx', t) for t in DEPOSITS]),
-    'C09': dict(level='proof', scenarios=[('history', 4000, 30000, 'replace')],
+    'C09': dict(level='proof', scenarios=[('replace', 3000, 40000, ''), ('history', 2500, 30000, 'replace')],
                 tags=[r'^tx:' + alt(REPLACERS) + r':(resp|deps)$', r'^after:tx:' + alt(REPLACERS) + r':.*$', r'^replace:ev:(MessageSent|DepositForBurn)$'],
                 only_impl_ok=[r'^tx:' + alt(REPLACERS) + r':out$'],
                 ops=[('tx', t) for t in REPLACERS]),
